@@ -1836,7 +1836,10 @@ impl BytecodeVM {
             }
         }
 
-        // No handler found - return the error back to caller with stack trace
+        // No handler found - return the error back to caller with stack trace. The block
+        // scopes this frame still had open are left like any other (their guards would
+        // otherwise stay on the interpreter for ever when the caller is a native function).
+        self.unwind_scopes_to(interp, 0);
         Err(wrapped_error)
     }
 
